@@ -176,6 +176,8 @@ QUIRKS = {
     "ed-confined-to-region-in-origin-mode": "with DECOM set, ED 0 stops at the end of the bottom-margin row and ED 1 starts at "
     "the top-margin row (rows outside the scrolling region are not erased); ED 2 is unaffected",
     "cpr-absolute-in-origin-mode": "the cursor position report gives the absolute row even when DECOM is set",
+    "g1-default-dec-graphics": "G1 is DEC special graphics after power-up / RIS / DECRC-without-save (linux console default; "
+    "a VT100 / xterm starts with ASCII in G1), so SO without a prior ESC ) 0 already selects line drawing",
     "il-dl-keep-column": "IL / DL leave the cursor column unchanged (xterm behaviour)",
     "decstbm-no-home": "a valid DECSTBM does not move the cursor",
     "bs-at-pending-wrap-stays": "BS in the pending-wrap state only clears the flag, cursor stays on the last column",
@@ -252,7 +254,7 @@ class VT:
         self.pending_wrap = False
         self.style = BLANK
         self.altfont = False
-        self.charsets = ["B", "B", "B", "B"]
+        self.charsets = self._default_charsets()
         self.gl = 0
         self._ss = None
         self.top = 0
@@ -877,6 +879,11 @@ class VT:
             self.x = 0
 
     # ------------------------------------------------------------------ save / restore, screens
+    def _default_charsets(self):
+        if "g1-default-dec-graphics" in self.quirks:
+            return ["B", "0", "B", "B"]
+        return ["B", "B", "B", "B"]
+
     def _save_cursor(self):
         s = (self.x, self.y, self.pending_wrap, self.style, self.altfont, list(self.charsets), self.gl, 6 in self.modes)
         if self.alt_screen:
@@ -891,11 +898,14 @@ class VT:
             self.pending_wrap = False
             self.style = BLANK
             self.altfont = False
-            self.charsets = ["B", "B", "B", "B"]
+            self.charsets = self._default_charsets()
             self.gl = 0
             self.modes.discard(6)
             return
+        keep = self.pending_wrap
         self.x, self.y, self.pending_wrap, self.style, self.altfont, cs, self.gl, om = s
+        if "pending-wrap-survives-cursor-motion" in self.quirks:
+            self.pending_wrap = keep  # the flag is neither saved nor restored there
         self.charsets = list(cs)
         self.x = min(self.x, self.cols - 1)
         self.y = min(self.y, self.rows - 1)
@@ -1163,7 +1173,7 @@ class VT:
         self.top, self.bottom = 0, self.rows - 1
         self.style = BLANK
         self.altfont = False
-        self.charsets = ["B", "B", "B", "B"]
+        self.charsets = self._default_charsets()
         self.gl = 0
         self._saved = self._saved_alt = None
 
@@ -1426,6 +1436,14 @@ def _selftest():
     ok([r[0] for r in v.text_rows()] == ["a", " ", " ", "d"] and v.responses == [b"\x1b[2;1R"], "quirks ED confined / CPR absolute in origin mode")
     v = mk(b"a\r\nb\r\nc\r\nd\x1b[2;3r\x1b[?6h\x1b[J\x1b[6n")
     ok([r[0] for r in v.text_rows()] == ["a", " ", " ", " "] and v.responses == [b"\x1b[1;1R"], "ED 0 ignores margins, CPR relative in origin mode")
+    v = mk(b"\x0eq\x0fq\x1bc\x0eq", quirks={"g1-default-dec-graphics"})
+    ok(v.row_text(0)[:1] == "─" and v.gl == 1 and mk(b"\x0eq").row_text(0)[0] == "q", "quirk g1-default-dec-graphics")
+    v = mk(b"ab\x1b7\x1b8\x0eq\x1b8cd", quirks={"g1-default-dec-graphics"})
+    ok(v.row_text(0)[:5] == "abcd " and v.gl == 0 and v.cursor == (4, 0), "a second DECRC restores cursor and shift state again")
+    v = mk(b"\x1b[31m\x1b)0\x1b7\x1b[32m\x0e\x1b8q\x1b[34m\x0e\x1b8q")
+    ok(v.row_text(0)[:2] == "q " and v.cells[0][0].fg == 1 and v.cursor == (1, 0) and v.gl == 0, "DECRC twice restores SGR and GL twice")
+    v = mk(b"hello\x1bc\x1b[2;5HX", cols=5, rows=3)
+    ok(v.row_text(1) == "    X" and v.cursor == (4, 1) and v.pending_wrap, "RIS clears the pending-wrap flag")
     v = mk(b"\x1b]0;hi there\x07A\x1b]2;t2\x1b\\B\x1b]1;icon\x07")
     ok(v.title == "t2" and v.icon_title == "icon" and v.row_text(0)[:2] == "AB", "OSC BEL / ST")
     v = mk(b"\x1bPabc\x1b\\X\x1b_zz\x1b\\Y\x1b^q\x1b\\Z\x1bXs\x1b\\W")
